@@ -209,11 +209,33 @@ class V4(object):
         o.written = set()
         o.assumed_state = True
         o.assumed_fields = set(o.fields)
+        from pyvc import extra
+
+        def parsed():
+            m = SMap(self.o.dom, self.o.val, None, "metrics")
+            m.info = self.o.info
+            return {"metrics": m}
+
+        extra.attach(ctx, o, "v4view", self, known=set(o.fields) | {"original_metrics"},
+                     stop_after={"parsed": "check_mandatory", "filled": "add_missing_optional",
+                                 "scored": "compute_base_score", "done": None}[phase],
+                     parsed_fields=parsed, accessors=ACCESSORS4, closure=(phase == "done"))
         return o
 
 
 def view_of(o):
     return o.v4view
+
+
+_TF = (True, False)
+ACCESSORS4 = (
+    ("scores", [((), {})]), ("severities", [((), {})]),
+    ("clean_vector", [((), {"output_prefix": b}) for b in _TF]),
+    ("rh_vector", [((), {})]),
+    ("as_json", [((), {"sort": a, "minimal": b}) for a in _TF for b in _TF]),
+    ("__hash__", [((), {})]), ("__eq__", []),
+    ("get_value_description", []),
+)
 
 
 class V4Contract(Contract):
